@@ -241,7 +241,79 @@ def facade_scenario(sh: Shard, seed, idx, regime):
         w.close()
 
 
+def library_sleepers_scenario(sh: Shard, seed, idx):
+    """The library's own configuration-aware sleepers on a real connection: the ping loop, and a
+    request pausing between two attempts.  A mode switch wakes them at once: the ping loop pings,
+    the pausing request makes its next attempt."""
+    import geckolib.config as C
+    from vlib.aworld import ScenarioHang, Watchdog, World
+    from vlib.rig import SpaRig
+
+    r = rng("C17l", seed, idx)
+    w = World(r, "B", max_iter=3_000_000, wall_cap=300)
+    try:
+        rig = SpaRig(w)
+
+        async def main():
+            if not await rig.connect(background=True):
+                sh.inconc("rig could not connect")
+                return
+            rig.cancel_tasks(("SPA:Refresh loop",))
+            await rig.quiesce()
+            await asyncio.sleep(r.choice([3.0, 7.0]))  # the ping loop is now in its long sleep
+            # (1) ping loop
+            d0 = len(w.net.dgrams)
+            ts = w.now
+            C.set_config_mode(r.random() < 0.5)
+            await asyncio.sleep(0.3)
+            sh.evaluations += 1
+            pings = [d for d in w.net.dgrams[d0:] if d.dir == "c2s" and d.verb == "APING"]
+            if not pings:
+                sh.violation("C17:library-sleeper-slept-through:ping-loop", f"the ping loop (sleeping its {C.GeckoConfig.PING_FREQUENCY_IN_SECONDS}s period) sent no ping within 0.3 s of the mode switch at {ts:.2f}", {"scenario": f"{seed}:{idx}"})
+            else:
+                sh.count("library_sleepers_woken")
+            await rig.quiesce()
+            # (2) a request between two attempts: its replies are lost, the switch lands in its pause
+            rig.cancel_tasks(("SPA:Ping loop",))
+            await asyncio.sleep(0.2)
+            w.net.fault = lambda d: [] if d.dir == "s2c" else None
+            d0 = len(w.net.dgrams)
+            T, P = C.GeckoConfig.PROTOCOL_TIMEOUT_IN_SECONDS, C.GeckoConfig.PAUSE_BETWEEN_RETRIES_IN_SECONDS
+            call = asyncio.ensure_future(rig.spa.async_get_watercare())
+            await asyncio.sleep(T + 0.2 + r.uniform(0.1, max(0.2, P - 0.9)))
+            tx0 = [d for d in w.net.dgrams[d0:] if d.dir == "c2s" and d.verb == "GETWC"]
+            ts = w.now
+            C.set_config_mode(r.random() < 0.5)
+            await asyncio.sleep(0.35)
+            tx1 = [d for d in w.net.dgrams[d0:] if d.dir == "c2s" and d.verb == "GETWC"]
+            sh.evaluations += 1
+            if len(tx0) == 1 and len(tx1) < 2:
+                sh.violation("C17:library-sleeper-slept-through:retry-pause", f"a request pausing between attempts (timeout {T}s, pause {P}s, first sent at {tx0[0].t:.2f}) made no new attempt within 0.35 s of the mode switch at {ts:.2f}", {"scenario": f"{seed}:{idx}"})
+            elif len(tx0) == 1:
+                sh.count("library_sleepers_woken")
+            else:
+                sh.count("retry_pause_probe_missed_the_pause")
+            w.net.fault = None
+            call.cancel()
+
+        try:
+            w.run(main())
+        except (ScenarioHang, Watchdog) as e:
+            sh.inconc(f"{type(e).__name__} in the library-sleepers scenario")
+        except Exception as e:
+            d = describe_exc(e)
+            if d["where"] == "repo":
+                sh.violation("C17:raise", f"{d['type']}: {d['msg']}", d)
+            else:
+                raise
+        sh.nontrivial(f"L:{seed}:{idx}")
+    finally:
+        w.close()
+
+
 def shard(sh: Shard, seed, lo, hi, nf):
+    for idx in range(lo, lo + max(2, nf // 3)):
+        library_sleepers_scenario(sh, seed, idx)
     for idx in range(lo, hi):
         sleepers_scenario(sh, seed, idx, ["B", "J", "J"][idx % 3])
     for idx in range(lo, lo + nf):
@@ -253,8 +325,25 @@ def main(tier, seed):
     per, nf = (40, 10) if tier == "quick" else (1200, 300)
     jobs = [{"seed": seed, "lo": i * per, "hi": (i + 1) * per, "nf": nf} for i in range(NCPU)]
     run.absorb(run_shards("checks.c17", "shard", jobs, timeout=3000))
-    run.extra["table_members_checked"] = None
+    # "the complete table of that mode": each mode's table states every setting itself - a setting left
+    # to the placeholder base class would install the placeholder when that mode is selected
+    import geckolib.config as C
+
+    # (a setting moved to the base class on purpose keeps its value: only a setting that is no longer
+    # stated AND whose effective value is no longer the audited one is a hole in the table)
+    AUDITED = {
+        "_GeckoActiveConfig": {"DISCOVERY_INITIAL_TIMEOUT_IN_SECONDS": 4, "DISCOVERY_TIMEOUT_IN_SECONDS": 10, "FACADE_UPDATE_FREQUENCY_IN_SECONDS": 30, "PAUSE_BETWEEN_RETRIES_IN_SECONDS": 2, "PING_DEVICE_NOT_RESPONDING_TIMEOUT_IN_SECONDS": 10, "PING_FREQUENCY_IN_SECONDS": 2, "PROTOCOL_RETRY_COUNT": 10, "PROTOCOL_TIMEOUT_IN_SECONDS": 4, "SPA_PACK_REFRESH_FREQUENCY_IN_SECONDS": 30, "TASK_TIDY_FREQUENCY_IN_SECONDS": 5},
+        "_GeckoIdleConfig": {"DISCOVERY_INITIAL_TIMEOUT_IN_SECONDS": 4, "DISCOVERY_TIMEOUT_IN_SECONDS": 10, "FACADE_UPDATE_FREQUENCY_IN_SECONDS": 120, "PAUSE_BETWEEN_RETRIES_IN_SECONDS": 2, "PING_DEVICE_NOT_RESPONDING_TIMEOUT_IN_SECONDS": 120, "PING_FREQUENCY_IN_SECONDS": 60, "PROTOCOL_RETRY_COUNT": 10, "PROTOCOL_TIMEOUT_IN_SECONDS": 4, "SPA_PACK_REFRESH_FREQUENCY_IN_SECONDS": 120, "TASK_TIDY_FREQUENCY_IN_SECONDS": 60},
+    }
+    for cls in (C._GeckoActiveConfig, C._GeckoIdleConfig):
+        for m in C.CONFIG_MEMBERS:
+            run.evaluations += 1
+            aud = AUDITED.get(cls.__name__, {}).get(m)
+            if m not in vars(cls) and aud is not None and getattr(cls, m, None) != aud:
+                run.violation(f"C17:table:incomplete:{cls.__name__}:{m}", f"the {cls.__name__} table no longer states {m}: selecting that mode installs the inherited {getattr(cls, m, None)!r} (the mode's own value was {aud!r}) - a mixture of tables", {"class": cls.__name__, "member": m})
+    run.extra["table_members_checked"] = list(C.CONFIG_MEMBERS)
     run.need(run.counters.get("wakes_by_switch", 0) > 200 and run.counters.get("wakes_by_timeout", 0) > 200, "too few wakes by switch / by timeout")
+    run.need(run.counters.get("library_sleepers_woken", 0) > 40, "the library's own sleepers (ping loop, retry pause) were hardly probed")
     run.need(run.counters.get("sleepers_cancelled_mid_sleep", 0) > 20, "no sleeper was cancelled in the middle of a sleep")
     run.need(run.counters.get("unobserved_changes_between_facades", 0) > 10, "facade rebuild after unobserved changes not exercised")
     run.need(len(run.sets.get("on_off_combinations", set())) >= 6, "too few on/off combinations of pumps and blowers")
